@@ -1516,7 +1516,7 @@ theorem wsClose_no_socket (code : Option Nat) (reason : Arg) (rb : Bytes) (s : S
 /-- the upgrade request `WebSocket.build_request()` produces starts with `GET `, so it never looks
     like a Close frame: `ReqOk` holds for every request the library builds -/
 theorem buildRequest_not_close (c : Http.ReqCfg) : isCloseBytes (Http.buildRequest c) = false := by
-  have hget : strBytes "GET " = [71, 69, 84, 32] := by decide +kernel
+  have hget : Http.lit "GET " = [71, 69, 84, 32] := by decide +kernel
   have hj : ∀ (t : Bytes) (r : List Bytes), ∃ t', Http.joinCRLF ((71 :: t) :: r) = 71 :: t' := by
     intro t r
     cases r with
